@@ -50,7 +50,7 @@ func runC13Child(ctx *Ctx) {
 	if err := json.Unmarshal(raw, &ops); err != nil {
 		fatal("%v", err)
 	}
-	s, err := badgerstore.Open(badgerOptsSync(ctx.Dir))
+	s, err := retryOpen(badgerstore.Open, badgerOptsSync(ctx.Dir))
 	if err != nil {
 		fatal("child open: %v", err)
 	}
@@ -316,7 +316,7 @@ func c13Kill(ctx *Ctx, i int) {
 	for _, a := range acks {
 		acked = append(acked, fmt.Sprintf("(%s, %s, %s)", cZ(a.Now), a.Op, a.Obs))
 	}
-	s, err := badgerstore.Open(badgerOptsSync(dir))
+	s, err := retryOpen(badgerstore.Open, badgerOptsSync(dir))
 	desc := c13Desc{Mode: "kill", Script: script, Acked: len(acks),
 		KillAt: fmt.Sprintf("op %d, %s, +%s", killK, map[bool]string{true: "as it starts", false: "after its ack"}[onStart], delay)}
 	if err != nil {
@@ -383,7 +383,7 @@ func c13Migrate(ctx *Ctx, i int) {
 		mv = 0
 	}
 	desc := c13Desc{Mode: "migrate", Script: done, Acked: len(done), Downgrade: &ver}
-	s, err := badgerstore.Open(badgerOpts(st.dir))
+	s, err := retryOpen(badgerstore.Open, badgerOpts(st.dir))
 	if err != nil {
 		desc.OpenErr = err.Error()
 		ctx.Emit(Case{I: i, Kind: fmt.Sprintf("migrate-from-%d", ver), Coq: c13Case(acked, "None", "(Some "+cZ(int64(mv))+")", false, nil), Desc: desc})
@@ -533,7 +533,7 @@ func c13CommitPoints(ctx *Ctx, i int) {
 		&SOp{Op: "AddAcctBal", Acct: acctAlphabet[0], Amount: "7"}, &SOp{Op: "AddAcctNode", Acct: acctAlphabet[0], ID: nodeAlphabet[0]})
 	dir, _ := ioutil.TempDir("", "vharness-commits")
 	defer os.RemoveAll(dir)
-	s, err := badgerstore.Open(badgerOpts(dir).WithNumVersionsToKeep(1 << 20))
+	s, err := retryOpen(badgerstore.Open, badgerOpts(dir).WithNumVersionsToKeep(1 << 20))
 	if err != nil {
 		fatal("badger open: %v", err)
 	}
@@ -605,7 +605,7 @@ func c13CommitPoints(ctx *Ctx, i int) {
 				fatal("rebuild: %v", err)
 			}
 			db2.Close()
-			s2, err := badgerstore.Open(badgerOpts(dir2))
+			s2, err := retryOpen(badgerstore.Open, badgerOpts(dir2))
 			desc := c13Desc{Mode: "commit-point", Script: done[:k+1], Acked: k, Inflight: done[k],
 				KillAt: fmt.Sprintf("right after commit %d, the first of the commits %v..%d made by operation %d (%s)", v, mids, after[k], k, done[k].Op)}
 			if err != nil {
@@ -691,7 +691,7 @@ func c13MigrateLarge(ctx *Ctx, i int, n int) {
 	before, nb := dump(db)
 	st.Store.Close()
 	var mon []string
-	s, err := badgerstore.Open(badgerOpts(st.dir))
+	s, err := retryOpen(badgerstore.Open, badgerOpts(st.dir))
 	if err != nil {
 		mon = append(mon, "c13-reopen-after-kill-failed: opening the format-1 database failed: "+err.Error())
 		ctx.Emit(Case{I: i, Kind: "migrate-large", Desc: map[string]interface{}{"mode": "migrate-large", "identities": n}, Monitor: mon})
